@@ -12,6 +12,37 @@ def parseAtoms (s : String) : Option (List Atom) :=
     | [k, w, kn, cs] => do pure ⟨← k.toNat?, ← w.toNat?, (← kn.toNat?) == 1, ← parseCands cs⟩
     | _ => none
 
+/-- match trees: `a<kind>[cands]` atom, `x` other leaf, `A(..)` and, `O(..)` or, `L(..)` andLine with children
+    `<known 0|1><tree>` separated by `;`, and the unary `N` not, `V` noVisit, `F` fileName, `B` boost, `S` symbolSubstr -/
+partial def parseMT : List Char → Option (MT × List Char)
+  | 'x' :: r => some (.other, r)
+  | 'a' :: k :: '[' :: r =>
+    let body := r.takeWhile (· != ']')
+    let rest := (r.dropWhile (· != ']')).drop 1
+    match (String.ofList [k]).toNat?, (if body.isEmpty then some [] else parseCands (String.ofList body)) with
+    | some kind, some cs => some (.atom kind cs, rest)
+    | _, _ => none
+  | 'N' :: r => (parseMT r).map fun (t, r') => (.not t, r')
+  | 'V' :: r => (parseMT r).map fun (t, r') => (.noVisit t, r')
+  | 'F' :: r => (parseMT r).map fun (t, r') => (.fileName t, r')
+  | 'B' :: r => (parseMT r).map fun (t, r') => (.boost t, r')
+  | 'S' :: r => (parseMT r).map fun (t, r') => (.symbolSubstr t, r')
+  | c :: '(' :: r =>
+    if c != 'A' && c != 'O' && c != 'L' then none else
+    let rec children (cs : List Char) (acc : List (Bool × MT)) : Option (List (Bool × MT) × List Char) :=
+      match cs with
+      | ')' :: r' => some (acc.reverse, r')
+      | ';' :: r' => children r' acc
+      | k :: r' =>
+        match parseMT r' with
+        | some (t, r'') => children r'' ((k == '1', t) :: acc)
+        | none => none
+      | [] => none
+    match children r [] with
+    | some (ch, r') => some ((if c == 'A' then MT.and ch else if c == 'O' then MT.or ch else MT.andLine ch), r')
+    | none => none
+  | _ => none
+
 def parseHexList (s : String) : Option (List Bytes) :=
   if s == "_" then some [] else (s.splitOn ";").mapM hexToBytes?
 
@@ -50,6 +81,15 @@ def handle (line : String) : String :=
       | some got =>
         if checkGather name (collect atoms) got then answer model else specFail model "gather"
     | _, _ => badCase "gather fields"
+  -- gathert <nameHex> <tree>: gatherMatches over a real (nested) match tree
+  | ["gathert", nameHex, tree] =>
+    match hexToBytes? nameHex, parseMT tree.toList with
+    | some name, some (t, []) =>
+      let model := showCands (gatherTree name t)
+      match parseCands impl with
+      | none => badCase "impl cands"
+      | some got => if checkGather name (visit t) got then answer model else specFail model "gather"
+    | _, _ => badCase "gathert fields"
   -- brk <textHex> <cands>
   | ["brk", textHex, cands] =>
     match hexToBytes? textHex, parseCands cands with
